@@ -78,12 +78,12 @@ pub fn check_traj(c: &TrajCase, ctx: &mut Ctx) -> CheckResult {
             ctx.label("underflow-regime");
             break;
         }
-        ensure!(r.tau > 0.0 && r.kappa > 0.0, "iteration {}: tau = {:e}, kappa = {:e} not positive", r.iter, r.tau, r.kappa);
-        if !(r.x.iter().chain(&r.s).chain(&r.z).all(|v| v.is_finite())) {
+        if !(r.x.iter().chain(&r.s).chain(&r.z).chain([r.tau, r.kappa].iter()).all(|v| v.is_finite())) {
             // numerical breakdown is reported through the status; interiority is not judged on NaNs
             ctx.label("non-finite-iterate");
             break;
         }
+        ensure!(r.tau > 0.0 && r.kappa > 0.0, "iteration {}: tau = {:e}, kappa = {:e} not positive", r.iter, r.tau, r.kappa);
         for (ci, k) in ps.cones.iter().enumerate() {
             let rng = off[ci]..off[ci + 1];
             if rng.is_empty() {
